@@ -386,8 +386,8 @@ PROPS["C20"] = pbt(
     quick={"cases": 32000},
     thorough={"cases": 500000},
     floors={"fault_in_dropin|layered_read": 0.30, "fault_callback_rejection|layered_read": 0.10, "fault_malformed_line|layered_read": 0.10,
-            "fault_dangling_symlink|layered_read": 0.08, "fault_vanished_in_callback|layered_read": 0.08,
-            "fault_foreign_owner|layered_read": 0.08},
+            "fault_dangling_symlink|layered_read": 0.06, "fault_vanished_in_callback|layered_read": 0.06,
+            "fault_foreign_owner|layered_read": 0.06, "fault_directory_permission|layered_read": 0.03},
 )
 
 PROPS["C04"] = pbt(
